@@ -136,5 +136,5 @@ class JSON:
         indent = int_arg(indent) if indent else None
         try:
             return json.dumps(left, default=self.default, indent=indent)
-        except TypeError as err:
+        except (TypeError, ValueError) as err:
             raise LiquidTypeError(str(err), token=None) from err
